@@ -1,9 +1,11 @@
 """C04 — symbolic-shape exports are correct for every binding of the symbols.
 
-Lean (lean/J2O/Props/C04.lean): for ALL `_DimExpr`s, bindings and memo states
-  lower_correct_partial / floordiv_off_by_one / lower_correct_refuted,
-  cache_transparent_partial / call_transparent_partial / cache_transparent_refuted,
-  origin_sound / origin_lookup_sound / orgSound_of_table, export_dim_correct_partial.
+Lean (lean/J2O/Props/C04.lean), model of /repo >= 31efd88: for ALL `_DimExpr`s, bindings, memo states
+  lower_correct (no proviso), floordiv_nodes_floor / ops_agree,
+  cache_transparent (for keys accepted by the decidable check `keysConsistent`, which this harness
+  runs on the live keys of every export), cache/call_transparent_of_faithful,
+  origin_sound / origin_lookup_sound / orgSound_of_table, export_dim_correct;
+  labelled regression theorems about the OLD lowering (old_div_*, old_keys_*).
 
 Tie (H, on every run): `LowerDimExpr.__call__`, `IRContext.record_symbolic_dim_origin` and
 `FunctionScope.begin` of the live /repo are wrapped; every real export of a generated program
@@ -18,8 +20,9 @@ are compared with ONNX Runtime on a box each run.
 
 Search / validation: every exportable program of the generator is run in ONNX Runtime on the
 lattice {1,2,3,5,7}^k against eager JAX (values and run-time shapes).  A mismatch is a finding;
-its class is decided with the theorems (memo = no-memo = ORT ≠ JAX  ⇒  a truncating floordiv;
-memo ≠ no-memo ⇒ an unfaithful cache key) and only the two listed classes are known.
+its class is decided with the model (real chain = model's chain value ≠ JAX, real ≠ model: unmodelled).
+The three defects found earlier (floordiv truncation, factor/term key collision, jnp.concatenate
+extent) are fixed in /repo (31efd88, fb42f05) and listed as `fixed`: they suppress nothing.
 """
 from __future__ import annotations
 
@@ -45,18 +48,18 @@ META = {
                  "decide-checked refutations of the two full statements; correspondence of the live "
                  "LowerDimExpr / origin recording with the model through a JSON driver; ORT-vs-JAX lattice sweep",
     "level_text": "Kernel-checked for all dimension expressions, all bindings, all memo states and all sequences "
-                  "of origin recordings: lower_correct_partial, floordiv_off_by_one, cache_transparent_partial, "
-                  "call_transparent_partial, origin_sound, export_dim_correct_partial. The two full-strength "
-                  "statements are refuted in Lean (lower_correct_refuted, cache_transparent_refuted) and both "
-                  "refutations are reproduced on the unchanged /repo (known findings F-C04-floordiv, "
-                  "F-C04-cachekey). Whole programs (reshape / broadcast / concat / arange / NCHW) are validated "
+                  "of origin recordings: lower_correct (the emitted chain, floordiv as Div(Sub(a,Mod(a,b)),b), has the "
+                  "JAX value; no proviso), cache_transparent (for memo keys accepted by the decidable check "
+                  "keysConsistent, run on the live keys of every export), origin_sound, export_dim_correct. Whole "
+                  "programs (reshape / broadcast / concat / arange / NCHW / function and loop scopes) are validated "
                   "on the lattice {1,2,3,5,7}^k, not proved.",
-    "level_note": "Partial. Trusted: Lean kernel + 3 standard axioms; the instrumentation and serialiser in "
-                  "harness/props/c04.py; ONNX int64 operator semantics as modelled (compared with ORT on a box "
-                  "each run); no int64 overflow; a DAG equals its unfolded tree; text keys are taken from the live "
-                  "objects (the model does not re-implement __str__); the premise of origin_sound (annotated "
-                  "extents are the run-time extents) is checked statically per recording and dynamically by ORT. "
-                  "Program-level correctness is sampled by the generator on the lattice.",
+    "level_note": "Partial only in the program-level part. Trusted: Lean kernel + 3 standard axioms; the "
+                  "instrumentation and serialiser in harness/props/c04.py; ONNX int64 semantics relied upon — Div "
+                  "truncates, Mod with fmod=0 has the sign of the divisor, Sub/Max/Min/Pow — compared with ONNX "
+                  "Runtime on a box each run; no int64 overflow; a DAG equals its unfolded tree; memo keys are taken "
+                  "from the live objects and the model's final memo keys are compared with the live compute_cache; "
+                  "the premise of origin_sound (annotated extents are the run-time extents) is checked statically "
+                  "per recording and dynamically by ORT.",
     "design_ref": "DESIGN.md §3 C04",
 }
 
@@ -67,27 +70,44 @@ LATTICE = (1, 2, 3, 5, 7)
 # ----------------------------------------------------------------------------- serialisation
 
 
+def key_factor(fp) -> str:
+    """`LowerDimExpr._lower_factor`: memo key of a (factor, power) pair (/repo >= 31efd88)"""
+    return f"factor^power:{fp}"
+
+
+def key_term_coeff(tc) -> str:
+    """`LowerDimExpr._lower_term_with_mult`: memo key of a (term, coeff) pair (/repo >= 31efd88)"""
+    return f"term*coeff:{tc}"
+
+
 def ser_expr(e: Any) -> dict:
-    """live `_DimExpr` (or int) -> JSON with the cache keys `LowerDimExpr` computes for each node."""
+    """live `_DimExpr` -> JSON with the cache keys `LowerDimExpr` computes for each node; a Python int
+    in the lowerer's argument list is `{"int": n}` (`_lower_expr` sends it to `_get_scalar` only).
+    That these ARE the keys of the running code is checked per context: the model's final memo keys
+    must equal the real `compute_cache` keys."""
     if isinstance(e, (int, np.integer)):
-        e = int(e)
-        return {"k": str(e), "t": [{"ktc": f"(, {e})", "kt": "", "c": e, "f": []}]}
+        return {"int": int(e)}
     terms = []
     for tc in e._sorted_terms:
         term, coeff = tc
         fs = []
         for fp in term._factors:
             f, p = fp
-            d: dict = {"kfp": str(fp), "p": int(p)}
+            d: dict = {"kfp": key_factor(fp), "p": int(p)}
             if f.operation is None:
                 d["var"] = str(f.var)
             else:
                 d["op"] = str(f.operation)
                 d["kop"] = f"{f.operation}#{tuple(f.operands)}"
-                d["args"] = [ser_expr(o) for o in f.operands]
+                d["args"] = [ser_expr(o) if not isinstance(o, (int, np.integer)) else ser_const(int(o))
+                             for o in f.operands]
             fs.append(d)
-        terms.append({"ktc": str(tc), "kt": str(term), "c": int(coeff), "f": fs})
+        terms.append({"ktc": key_term_coeff(tc), "kt": str(term), "c": int(coeff), "f": fs})
     return {"k": str(e), "t": terms}
+
+
+def ser_const(n: int) -> dict:
+    return {"k": str(n), "t": [{"ktc": f"term*coeff:(, {n})", "kt": "", "c": n, "f": []}]}
 
 
 def cache_items(e: Any, out: dict) -> None:
@@ -104,13 +124,13 @@ def cache_items(e: Any, out: dict) -> None:
     for tc in e._sorted_terms:
         term, coeff = tc
         tval = sp._DimExpr._from_term(term, 1, scope) if term._factors else 1
-        put(str(tc), tval * coeff, "term_coeff")
+        put(key_term_coeff(tc), tval * coeff, "term_coeff")
         if term._factors:
             put(str(term), tval, "term")
         for fp in term._factors:
             f, p = fp
             fval = sp._DimExpr._from_term(sp._DimTerm.from_factor(f, 1), 1, scope)
-            put(str(fp), fval ** p, "factor_power")
+            put(key_factor(fp), fval ** p, "factor_power")
             if f.operation is not None:
                 put(f"{f.operation}#{tuple(f.operands)}", fval, "op")
                 for o in f.operands:
@@ -217,6 +237,7 @@ class Instr:
 
         def call(lowerer, exprs):
             s = me._sess(lowerer.ctx)
+            s["lowerer"] = lowerer
             res = me._orig_call(lowerer, exprs)
             exprs = list(exprs)
             pos = [i for i, e in enumerate(exprs) if hasattr(e, "_sorted_terms") or isinstance(e, (int, np.integer))]
@@ -673,15 +694,23 @@ def check_op_semantics(chk: Check, answers: list) -> None:
     A = np.array([p[0] for p in pairs], dtype=np.int64)
     Bv = np.array([p[1] for p in pairs], dtype=np.int64)
     bad = []
-    for op, key, attrs in (("Div", "div", {}), ("Mod", "mod", {}), ("Max", "max", {}), ("Min", "min", {})):
-        g = helper.make_graph([helper.make_node(op, ["a", "b"], ["c"], **attrs)], "g",
+    def two_in(nodes, out="c"):
+        g = helper.make_graph(nodes, "g",
                               [helper.make_tensor_value_info("a", TensorProto.INT64, [None]),
                                helper.make_tensor_value_info("b", TensorProto.INT64, [None])],
-                              [helper.make_tensor_value_info("c", TensorProto.INT64, [None])])
+                              [helper.make_tensor_value_info(out, TensorProto.INT64, [None])])
         m = helper.make_model(g, opset_imports=[helper.make_opsetid("", 21)], ir_version=10)
-        got = ort_session(m).run(None, {"a": A, "b": Bv})[0]
-        if got.tolist() != ans[key]:
+        return ort_session(m).run(None, {"a": A, "b": Bv})[0].tolist()
+    # the primitive facts the theorems rely on: integer Div truncates; integer Mod with the default
+    # fmod=0 has the sign of the divisor; Sub/Max/Min are the integer operations
+    for op, key in (("Div", "tdiv"), ("Mod", "mod"), ("Sub", "sub"), ("Max", "max"), ("Min", "min")):
+        if two_in([helper.make_node(op, ["a", "b"], ["c"])]) != ans[key]:
             bad.append(op)
+    # ... and the three-node chain the lowerer emits for floordiv is Python's //
+    comp = two_in([helper.make_node("Mod", ["a", "b"], ["r"]), helper.make_node("Sub", ["a", "r"], ["e"]),
+                   helper.make_node("Div", ["e", "b"], ["c"])])
+    if comp != ans["floordiv"] or comp != [a // b for a, b in pairs]:
+        bad.append("Div(Sub(a,Mod(a,b)),b)")
     # Pow with non-negative exponent
     pp = OPS_POW
     ansp = json.loads(answers[1])["pow"]
@@ -699,9 +728,10 @@ def check_op_semantics(chk: Check, answers: list) -> None:
     if bad:
         # the *model* of the operator semantics is wrong: infrastructure, not a verdict about /repo
         raise RuntimeError(f"modelled integer operator semantics disagree with the runtime: {bad}")
-    chk.info("operator_semantics_box", {"pairs": len(pairs) + len(pp), "ops": ["Div", "Mod", "Max", "Min", "Pow", "//", "%"],
+    chk.info("operator_semantics_box", {"pairs": len(pairs) + len(pp), "ops": ["Div (truncates)", "Mod fmod=0 (sign of divisor)", "Sub", "Max", "Min", "Pow",
+                                                "Div(Sub(a,Mod(a,b)),b) = //", "//", "%"],
                                         "result": "Lean model = ONNX Runtime / Python on the whole box"})
-    chk.add("traces_validated_against_impl", 5 * len(pairs) + len(pp))
+    chk.add("traces_validated_against_impl", 6 * len(pairs) + len(pp))
 
 
 def eval_tree(text: str, shapes: dict) -> Optional[int]:
@@ -869,8 +899,11 @@ def run(chk: Check) -> None:
              "table_equal": 0, "ort_runs": 0, "ort_errors": 0, "eager_jax_runs": 0,
              "numpy_ref_runs": 0, "eval_shape_checks": 0, "jax_eval_checks": 0, "chain_vs_ort_checks": 0,
              "origin_recordings": 0, "origin_runtime_checks": 0, "origins_not_in_final_graph": 0,
-             "chain_value_checks": 0, "model_more_pessimistic_than_code": 0, "chain_drift_same_value": 0}
+             "chain_value_checks": 0, "model_more_pessimistic_than_code": 0, "chain_drift_same_value": 0,
+             "memo_keys_equal": 0, "memo_keys_differ": 0, "key_check_accepted": 0}
     drift: list = []
+    key_drift: list = []
+    inconsistent: list = []
     not_exportable: list = []
     broken_corr: list = []
     dist: dict = {}
@@ -941,6 +974,24 @@ def run(chk: Check) -> None:
             else:
                 broken_corr.append({"program": prog.name, "what": "origin table", "model": mtab,
                                     "real": real_tables[sid]})
+            # the memo itself: same keys in the model and in the live compute_cache
+            low = s.get("lowerer")
+            if low is not None:
+                # (the model's memo is an association list: a key written twice appears twice)
+                real_keys = sorted({repr(k) for k in low.compute_cache.keys()})
+                model_keys = sorted({repr(k) for k in ans["cache_keys"]})
+                if real_keys == model_keys:
+                    stats["memo_keys_equal"] += 1
+                else:
+                    stats["memo_keys_differ"] += 1
+                    key_drift.append({"program": prog.name,
+                                      "only_real": sorted(set(real_keys) - set(model_keys))[:6],
+                                      "only_model": sorted(set(model_keys) - set(real_keys))[:6]})
+            # hypothesis of cache_transparent, checked on the keys of this export
+            if ans.get("consistent"):
+                stats["key_check_accepted"] += 1
+            else:
+                inconsistent.append(prog.name)
             for ci, call in enumerate(ans["calls"]):
                 stats["calls"] += 1
                 for ei, (mt, rt) in enumerate(zip(call["trees"], s["real_trees"][ci])):
@@ -1129,7 +1180,15 @@ def run(chk: Check) -> None:
             f"exprs={stats['exprs']} chain-equal={stats['tree_equal']} table-equal={stats['table_equal']} "
             f"ort_runs={stats['ort_runs']} timing={timing}")
 
+    chk.info("memo_key_drift_examples", key_drift[:5])
+    chk.info("programs_whose_keys_fail_the_check", inconsistent[:10])
     # ---- verdicts for a broken correspondence / obligation without a concrete input ----------
+    if (key_drift or inconsistent) and not chk.violations:
+        chk.violation({"correspondence": "memo keys of a real export: differ from the model's, or fail keysConsistent "
+                                         "(the hypothesis under which cache_transparent is proved)",
+                       "key_drift": key_drift[:8], "keys_fail_check": inconsistent[:8],
+                       "note": "every chain of these exports still had the JAX value on the whole lattice"},
+                      name="memo-keys", no_failing_input=True)
     if broken_corr and not chk.violations:
         chk.violation({"correspondence": "live LowerDimExpr / origin recording differs from the Lean model",
                        "cases": broken_corr[:12],
